@@ -5,7 +5,10 @@ V = os.path.dirname(os.path.dirname(os.path.abspath(__file__)))
 TECH = ("contract-based deductive verification: VCs generated from the ast of the real functions by symbolic "
         "execution, discharged by z3/cvc5; counter-models replayed on the real code")
 NOTE = ("Trusted: pyvc's encoding of the Python subset (DESIGN.md 2.2: mathematical ints, struct/enum/dataclass/copy models, "
-        "crc16 uninterpreted + residue lemma), SMT solvers. Callees without a summary are inlined, i.e. verified as part of the caller's paths.")
+        "crc16 uninterpreted + residue lemma), SMT solvers. Callees without a summary are inlined, i.e. verified as part of the caller's paths. "
+        "Exit codes: 0 held (every obligation discharged on the unchanged tree; on changed code a harness the engine cannot decide and whose "
+        "bounded native search finds no failing input is printed as DEGRADED, listed as bounded in the evidence and never counted as proved), "
+        "1 VIOLATION, 2 undecided, 3 checker error.")
 CLAIMS = {
  "C01": ("Layout against an independent oracle, field extraction, refusal iff, inverse lemmas with arbitrary suffix: each clause is an SMT obligation over all integers / all octet strings, discharged on every path of the real functions.", "DESIGN.md 5 C01"),
  "C02": ("PUS TC pack = layout oracle with CRC as spec function, for symbolic application-data length; unpack post-conditions for arbitrary octet strings (min-length rejection, CRC gate, field extraction, prefix-only); round trip with arbitrary suffix; space-packet view.", "DESIGN.md 5 C02"),
